@@ -39,7 +39,9 @@ func main() {
 	}
 	switch os.Args[1] {
 	case "check":
-		os.Exit(cmdCheck(os.Args[2:]))
+		rc := cmdCheck(os.Args[2:])
+		cleanupReplay()
+		os.Exit(rc)
 	case "run":
 		os.Exit(cmdRun(os.Args[2:]))
 	case "replay":
